@@ -139,9 +139,16 @@ def gen_history(rng):
             cand = sorted(uni.closure(req))
             fail = [o for o in cand if rng.random() < rng.choice([0, 0, 0.3])]
             steps.append({"op": "transfer", "req": req, "shallow": shallow, "fail": fail})
-        elif r < 0.7:
+        elif r < 0.6:
             steps.append({"op": "delete", "dirs": [t for t in trees if rng.random() < 0.4], "files": [f for f in files if rng.random() < 0.3],
                           "keep_closed": rng.random() < 0.5})
+        elif r < 0.72:
+            # another client writes into the remote behind this client's back (new fan-out directories appear)
+            add = [f for f in files if rng.random() < 0.4]
+            for t in trees:
+                if rng.random() < 0.3:
+                    add += [t] + [f for f in uni.listing(t) if f not in add]
+            steps.append({"op": "external_add", "oids": add})
         else:
             req = [o for o in uni.all_oids() if rng.random() < 0.6] or trees[:1]
             steps.append({"op": "status", "req": req, "shallow": rng.random() < 0.5})
@@ -188,6 +195,10 @@ def check_history(ctx, h, uni):
                       "src": uni.all_oids()}
                 reqs.append(xfer.model_req(sc, uni, before, idx_before, faults.dir_order))
                 work.append((n, "transfer", xfer.canon_impl(obs) if "err" not in obs else obs))
+            elif st["op"] == "external_add":
+                for o in st["oids"]:
+                    if o not in stores.listing_of(dest.path):
+                        stores.put_raw(dest.path, o, uni.data(o), mode=0o444 if h["dest_local"] else None)
             elif st["op"] == "delete":
                 present = stores.listing_of(dest.path)
                 for d in st["dirs"]:
@@ -207,6 +218,9 @@ def check_history(ctx, h, uni):
                 now = set(stores.listing_of(dest.path))
                 if kind == "ok":
                     obs = {"exists": stores.vals(res.exists), "missing": stores.vals(res.missing), "index": stores.index_dump(idx)}
+                    for o in obs["missing"]:
+                        ctx.oracle(o not in now, case, {"why": "an object that is in the store at query time is reported as missing",
+                                                        "step": n, "id": o})
                     for o in obs["exists"]:
                         if o.endswith(".dir"):
                             ctx.oracle(o in now, case, {"why": "a directory object is reported as existing but is not in the store at query time",
